@@ -54,13 +54,17 @@ fn decode(s: &mut Source) -> Case {
                 _ => Goal::Fd(FdGoal::Plus(x.clone(), int(s), q(s))),
             }
         } else {
-            match s.below(6) {
+            match s.below(8) {
                 0 => Goal::Eq(x.clone(), int(s)),
                 1 => Goal::Diseq(x.clone(), int(s)),
                 2 => Goal::Call(Rel::Member, vec![x.clone(), Term::list(vec![int(s), int(s), q(s)])]),
                 3 => Goal::Eq(x.clone(), Term::cons(q(s), Term::Var(LV + 1))),
                 4 => Goal::Conde(vec![vec![Goal::Eq(x.clone(), int(s))], vec![Goal::Eq(x.clone(), q(s))]]),
-                _ => Goal::Diseq(x.clone(), q(s)),
+                5 => Goal::Diseq(x.clone(), q(s)),
+                // a choice on the body-local variable that the element does not decide: every
+                // iteration must get its own variable and its own choice point
+                6 => Goal::Call(Rel::Member, vec![Term::Var(LV + 1), Term::list(vec![int(s), int(s)])]),
+                _ => Goal::Conde(vec![vec![Goal::Eq(Term::Var(LV + 1), int(s))], vec![Goal::Eq(Term::Var(LV + 1), x.clone())]]),
             }
         };
         body.push(g);
@@ -83,6 +87,77 @@ fn decode(s: &mut Source) -> Case {
         }
     }
     Case { before, coll, body, after, fd }
+}
+
+/// Long collections (up to 400, thorough 2000 elements); bodies that stay (nearly)
+/// deterministic so that the answer count does not explode.
+fn decode_long(s: &mut Source, thorough: bool) -> Case {
+    use crate::gen::scale;
+    let fd = s.flag(90);
+    let n = scale::size(s, scale::cap(thorough));
+    let q = |s: &mut Source| Term::Var(s.below(2) as VarId);
+    let mut coll: Vec<Term> = (0..n).map(|i| Term::Int((i % 4) as i64)).collect();
+    let deco = s.below(5);
+    for _ in 0..deco {
+        let pos = s.below(n);
+        coll[pos] = if fd {
+            q(s)
+        } else {
+            match s.below(4) {
+                0 | 1 => q(s),
+                2 => Term::list(vec![Term::Int(1), q(s)]),
+                _ => Term::Int(9),
+            }
+        };
+    }
+    let x = Term::Var(LV);
+    let nb = 1 + s.below(2);
+    let mut body = vec![];
+    for _ in 0..nb {
+        let g = if fd {
+            match s.below(3) {
+                0 => Goal::Fd(FdGoal::Lte(x.clone(), Term::Int(s.range(3, 4)))),
+                1 => Goal::Fd(FdGoal::Diseq(x.clone(), Term::Int(s.range(4, 6)))),
+                _ => Goal::Fd(FdGoal::Lte(x.clone(), q(s))),
+            }
+        } else {
+            match s.weighted(&[3, 2, 2, 1, 1]) {
+                0 => Goal::Diseq(x.clone(), Term::Int(s.range(3, 9))),
+                1 => Goal::Diseq(x.clone(), q(s)),
+                2 => Goal::Eq(Term::Var(LV + 1), Term::list(vec![x.clone(), q(s)])),
+                3 => Goal::Conde(vec![vec![Goal::Eq(x.clone(), Term::Int(s.range(0, 3)))], vec![Goal::Diseq(x.clone(), Term::Int(s.range(0, 3)))]]),
+                _ => Goal::Eq(x.clone(), x.clone()),
+            }
+        };
+        body.push(g);
+    }
+    if !fd && body.iter().any(|g| g.any(&|x| { let mut has = false; x.visit_terms(&mut |t| { let mut v = vec![]; t.vars(&mut v); if v.contains(&(LV + 1)) { has = true; } }); has })) {
+        body = vec![Goal::Fresh(vec![LV + 1], body)];
+    }
+    let mut before = vec![];
+    let mut after = vec![];
+    if fd {
+        before.push(Goal::Fd(FdGoal::InFdRange(Term::list(vec![Term::Var(0), Term::Var(1)]), 0, 4)));
+    }
+    if s.flag(80) {
+        let g = if fd { Goal::Fd(FdGoal::Lt(Term::Var(0), Term::Var(1))) } else { Goal::Diseq(Term::Var(0), Term::Var(1)) };
+        if s.flag(128) {
+            before.push(g)
+        } else {
+            after.push(g)
+        }
+    }
+    Case { before, coll, body, after, fd }
+}
+
+fn run_long(bytes: &[u8], ctx: &Ctx) -> CaseInfo {
+    let mut s = Source::new(bytes);
+    let c = decode_long(&mut s, ctx.tier == Tier::Thorough);
+    let mut info = eval(&c, ctx);
+    truncate_sample(&mut info, 400);
+    let n = c.coll.len();
+    info.class(if n >= 256 { "elements>=256" } else if n >= 64 { "elements>=64" } else if n >= 16 { "elements>=16" } else { "elements<16" });
+    info
 }
 
 fn with_for(c: &Case) -> Program {
@@ -190,9 +265,12 @@ pub fn run_family_pub(bytes: &[u8], ctx: &Ctx) -> CaseInfo {
 pub fn def() -> PropertyDef {
     PropertyDef {
         id: "C12",
-        rule: "`for x in coll { body }` built through everyg with a move closure (what For::to_tokens expands to), collections of 0-4 terms (ground, partially ground, sharing the two query variables; passed as Vec<LTerm> for even and as an LTerm list for odd sizes), bodies of 1-3 goals over the loop variable, the query variables and a body-local fresh variable (tree profile: ==, !=, member, conde; FD profile: infdrange, ltefd, diseqfd, plusfd on the loop variable), optionally with a constraint before or after the loop. Oracle: multiset(for) = multiset(explicit conjunction of the body instantiated per element) = reference interpreter (tree profile); an empty collection succeeds exactly once. Non-trivial = |coll| >= 2; distinct = hash of the printed program. The surface form of `for` (macro) is covered by the compile pipeline of C14",
+        rule: "`for x in coll { body }` built through everyg with a move closure (what For::to_tokens expands to), collections of 0-4 terms (ground, partially ground, sharing the two query variables; passed as Vec<LTerm> for even and as an LTerm list for odd sizes), bodies of 1-3 goals over the loop variable, the query variables and a body-local fresh variable (tree profile: ==, !=, member, conde; FD profile: infdrange, ltefd, diseqfd, plusfd on the loop variable), optionally with a constraint before or after the loop. Oracle: multiset(for) = multiset(explicit conjunction of the body instantiated per element) = reference interpreter (tree profile); an empty collection succeeds exactly once. Non-trivial = |coll| >= 2; distinct = hash of the printed program. Family `long-collections`: the same oracle with collections of up to 400 (thorough 2000) elements and (nearly) deterministic bodies. The surface form of `for` (macro) is covered by the compile pipeline of C14",
         assumptions: vec!["surface `for` bodies cannot capture outer logic variables (the generated closure is not `move`), so outer variables are exercised through the API"],
-        families: vec![Family { name: "everyg", max_len: 96, quick: 120_000, thorough: 3_000_000, run: run_family }],
+        families: vec![
+            Family { name: "everyg", max_len: 96, quick: 120_000, thorough: 3_000_000, run: run_family },
+            Family { name: "long-collections", max_len: 48, quick: 60_000, thorough: 150_000, run: run_long },
+        ],
         fixed: vec![Fixed { name: "empty-collection-with-failing-body", run: fixed_empty }],
         witnesses: vec![],
         exhaustive: None,
